@@ -41,7 +41,7 @@ CHECKS = {
     technique="Coq proof of the loop-control logic + live stalled-peer measurement through the send hook",
     design="§2 C07"),
  "C16": dict(
-    text="Partial. Theorems C16_content_length_roundtrip (all of 0..2^64-1, via a general decimal print/parse round-trip lemma), C16_connection/encoding/expect_roundtrip (every enum value), C16_host_roundtrip, C16_server_roundtrip (every list of product tokens without blanks), C16_lookup_first_occurrence and C16_lookup_any_capitalisation (the case-insensitive collection returns the first occurrence under every capitalisation, for any header list). Cache-Control directive lists, Date, Content-Type and the string-valued headers are decided by API-level and text-level double round trips compared with the model / checked by the oracle.",
+    text="Partial. Theorems C16_content_length_roundtrip (all of 0..2^64-1, via a general decimal print/parse round-trip lemma), C16_connection/encoding/expect_roundtrip (every enum value), C16_host_roundtrip, C16_server_roundtrip (every list of product tokens without blanks), C16_cache_control_roundtrip (every list of the twelve directives with delta-seconds 0..LONG_MAX), C16_lookup_first_occurrence and C16_lookup_any_capitalisation (the case-insensitive collection returns the first occurrence under every capitalisation, for any header list). Malformed Cache-Control texts, Date, Content-Type and the string-valued headers are decided by API-level and text-level double round trips compared with the model / checked by the oracle.",
     note="Closed under the global context. Host with port 0 is an excluded corner. Trusted: harness/h_headers.cc, generator.",
     technique="Coq proof (decimal round-trip, enum sweeps, case-insensitive first-wins lookup) + differential correspondence of write/parse/write on the real headers",
     design="§2 C16"),
